@@ -1,6 +1,7 @@
 mod asm;
 mod authgate;
 mod cfggate;
+mod gas;
 mod http;
 mod inst;
 mod locks;
@@ -113,6 +114,7 @@ fn main() {
         "vk-edges" => vk::run(&args[2], args[3].parse().unwrap(), &args[4]),
         "smoke" => smoke(),
         "play" => play(&args[2..]),
+        "gas" => gas::run(&args[2], args[3].parse().unwrap_or(1), args[4].parse().unwrap_or(20)),
         "cfggate" => cfggate::run(&args[2], &args[3]),
         "auth" => authgate::run(&args[2], &args[3]),
         "methods" => {
